@@ -28,7 +28,7 @@ def build(sh, k):
     if t == 'float':
         return [1.5, -0.0, 1e300, float('inf')][k % 4]
     if t == 'str':
-        return ['é', '', 'abc', 'x' * 20][k % 4] + ('#%d' % k if k >= 1000 else '')
+        return ['é', '', 'abc', 'x' * 20, '\ufeffmark first'][k % 5] + ('#%d' % k if k >= 1000 else '')
     if t == 'bytes':
         return bytearray([b'ab', b'', bytes(range(5))][k % 3])
     if t == 'wrap':
